@@ -69,8 +69,16 @@ def x_vocab(domain):
     types = {}
     for name, t in domain.types.items():
         types[name] = t.parent.name if t.parent is not None else None
+    chains = {}
+    for name, t in domain.types.items():
+        chain, cur = [], t
+        while cur is not None and len(chain) < 20:      # following the parent *objects*, not the table
+            chain.append(cur.name)
+            cur = cur.parent
+        chains[name] = chain
     return {
         "types": types,
+        "type_chains": chains,
         "constants": {n: c.type.name for n, c in domain.constants.items()},
         "predicates": {n: [[k, v.name] for k, v in p.signature.items()] for n, p in domain.predicates.items()},
         "functions": {n: [[k, v.name] for k, v in f.signature.items()] for n, f in domain.functions.items()},
